@@ -969,7 +969,7 @@ class Interp:
                     return BoundMethod(None, m2.functions[nm])
                 if nm in getattr(m2, "dropped_functions", {}):
                     return BoundMethod(None, m2.dropped_functions[nm])
-        if e.id in ("struct", "time", "asyncio", "logging", "re", "math", "threading", "socket", "enum", "operator", "contextlib", "dataclasses", "typing", "functools", "itertools", "collections", "importlib", "datetime", "os", "sys", "ast"):
+        if e.id in ("struct", "time", "asyncio", "logging", "re", "math", "threading", "socket", "enum", "operator", "contextlib", "dataclasses", "typing", "functools", "itertools", "collections", "importlib", "datetime", "os", "sys", "ast", "weakref"):
             return ModuleRef(e.id)
         if mod is not None and e.id in mod.imports and mod.imports[e.id][0] == 0:
             from .pystd import STD_MODULES
@@ -1271,8 +1271,8 @@ class Interp:
                 v = self.repo.fold(mod.consts[name], mod)
             except Unfoldable:
                 v = self.eval(mod.consts[name], {"__mod__": mod, "__class__": None})
-        if isinstance(v, (dict, list, set, USet)):
-            cache[key] = v
+        if isinstance(v, (dict, list, set, USet, _collections.deque)) or hasattr(v, "__next__"):
+            cache[key] = v     # ... and an iterator / generator bound at module level is ONE object: used up once, for good
         return v
 
     def _class_value(self, k, attr):
@@ -1475,6 +1475,10 @@ class Interp:
         if isinstance(op, ast.Is):
             if l is None or r is None:
                 return l is r
+            if isinstance(l, Builtin) and isinstance(r, Builtin):
+                return l.name == r.name          # `type(x) is str`: the builtin types are singletons
+            if isinstance(l, ClassRef) and isinstance(r, ClassRef):
+                return l.cls is r.cls
             if isinstance(l, (EnumMember, StrEnumMember)) and isinstance(r, (EnumMember, StrEnumMember)):
                 return l.cls is r.cls and l.name == r.name   # enum members are singletons
             return l is r
@@ -1908,7 +1912,7 @@ BUILTINS = {
     "int", "float", "len", "isinstance", "max", "min", "str", "bool", "range", "list",
     "tuple", "dict", "bytes", "abs", "enumerate", "zip", "sorted", "hex", "round", "set",
     "Exception", "ValueError", "RuntimeError", "OverflowError", "getattr", "setattr", "hasattr", "callable", "dir",
-    "any", "all", "next", "iter", "frozenset", "sum", "reversed", "map", "filter", "print", "divmod", "bytearray", "repr", "ord", "chr", "memoryview",
+    "any", "all", "next", "iter", "frozenset", "sum", "reversed", "map", "filter", "print", "divmod", "bytearray", "repr", "ord", "chr", "memoryview", "type",
     "TypeError", "KeyError", "IndexError", "AttributeError", "NotImplementedError", "StopIteration", "property", "open",
 }
 
@@ -1916,6 +1920,12 @@ BUILTINS = {
 class Builtin:
     def __init__(self, name):
         self.name = name
+
+    def __eq__(self, o):
+        return isinstance(o, Builtin) and o.name == self.name
+
+    def __hash__(self):
+        return hash(("builtin", self.name))
 
     def __call__(self, interp, args, kwargs, node=None):
         n = self.name
@@ -2053,6 +2063,17 @@ class Builtin:
             if any(isinstance(a, Opaque) for a in args):
                 return Opaque(n)
             return USet(list(args[0]) if args else [])
+        if n == "type" and len(args) == 1:
+            v = args[0]
+            if isinstance(v, (Obj, ListObj, DictObj)) and getattr(v, "cls", None) is not None:
+                return ClassRef(v.cls)
+            if isinstance(v, (EnumMember, StrEnumMember)):
+                return ClassRef(v.cls)
+            if isinstance(v, Opaque):
+                return Opaque("type")
+            if v is None or isinstance(v, (bool, int, float, str, bytes, bytearray, list, tuple, dict, set, frozenset, memoryview)):
+                return Builtin(type(v).__name__)
+            raise Undecided(f"type() of {type(v).__name__}")
         if n == "memoryview":
             v = args[0] if args else None
             if isinstance(v, (bytes, bytearray, memoryview)):
